@@ -58,9 +58,10 @@ def allVars (e : VEnv) : List (Str × Val) := assocUpdate (assocUpdate e.sys e.t
 
 def lookupVar (e : VEnv) (k : Str) : Option Val := assocGet e.allVars k
 
-/-- the environment a child stack starts with: fresh, then `append_env(parent)` -/
+/-- the environment a child stack starts with: fresh, then `append_env(parent)`.
+    Updating an empty dictionary with a dictionary copies it entry by entry, in order. -/
 def enter (p : VEnv) : VEnv :=
-  { sys := assocUpdate [] p.sys, user := assocUpdate [] p.user, temp := [], funcs := assocUpdate [] p.funcs }
+  { sys := p.sys, user := p.user, temp := [], funcs := p.funcs }
 
 /-- `update_from_env`: overwrite the names the parent already has; add nothing -/
 def exitNormal (p c : VEnv) : VEnv :=
